@@ -236,7 +236,7 @@ class FullExecutor(Executor):
         c = CONTRACTS.get(ck) or CONTRACTS.get(ck + ".__init__")
         if c is not None and cls in REF_TYPES:
             ref = self.alloc(st, REF_TYPES[cls])
-            outs = self.call_contract(st, c, [ref] + args, kwargs, True, node)
+            outs = self.call_contract(st, c, [ref] + args, kwargs, True, node, real_fn=cls.__init__)
             res = []
             for s2, oc in outs:
                 if oc.kind == "value":
